@@ -107,6 +107,8 @@ func newC03Env(n int) *c03Env {
 	must("addRecord", c.Invoke([]neotest.Signer{e.u0}, e.h["nns"], "addRecord", "c03.neofs", recTXT, "initial"))
 	// u1 is the name's delegated admin: delegation must not widen what only the owner may do
 	must("setAdmin", c.Invoke([]neotest.Signer{e.u0, e.u1}, e.h["nns"], "setAdmin", "c03.neofs", e.u1.ScriptHash()))
+	// a third-level name that belongs to somebody else (u2, no admin): who owns the second level has no say below it
+	must("register level 3", c.Invoke([]neotest.Signer{e.u0, e.u2}, e.h["nns"], "register", "sub.c03.neofs", e.u2.ScriptHash(), "m@nspcc.io", int64(1), int64(2), int64(31536000), int64(3)))
 	// funds
 	gas := c.NativeHash(nativenames.Gas)
 	must("deposit", c.Invoke([]neotest.Signer{e.u1}, gas, "transfer", e.u1.ScriptHash(), e.h["neofs"], 50*gasUnit, nil))
@@ -128,6 +130,7 @@ const (
 	reqNone      = "none"            // no witness (succeeds for anybody)
 	reqCallback  = "callback"        // must be inert when invoked directly by anybody
 	reqInternal  = "internal"        // not callable from outside at all
+	reqCustom    = "custom"          // the row lists its classes itself
 )
 
 type c03Row struct {
@@ -138,9 +141,12 @@ type c03Row struct {
 	// delegate: a key that holds a delegated (weaker or equal) right on the object, e.g. an NNS admin
 	delegate        func(e *c03Env) neotest.Signer
 	delegateAllowed bool
-	also            func(e *c03Env) []c03Class // further deficient classes specific to the method
-	falsey          bool                       // refusal is HALT(false)
-	target          string                     // key in e.h when it is not the contract name
+	also            func(e *c03Env) []c03Class       // further deficient classes specific to the method
+	falsey          bool                             // refusal is HALT(false)
+	target          string                           // key in e.h when it is not the contract name
+	variant         string                           // further situations of the same method (c03Variants)
+	custom          func(e *c03Env) []c03Class       // req = reqCustom: the complete class list
+	classArgs       map[string]func(e *c03Env) []any // arguments of a class (by name) when they differ from the row's
 }
 
 func same(args ...any) func(*c03Env) []any { return func(*c03Env) []any { return args } }
@@ -281,6 +287,60 @@ func c03Table() map[string]c03Row {
 	return t
 }
 
+// c03Variants: further situations of a method in which the documented witness is another one than in the table's
+// main row (deeper levels of a hierarchy, an object that belongs to somebody else). Each is run on a world of its own.
+func c03Variants() map[string][]c03Row {
+	S := func(s ...neotest.Signer) []neotest.Signer { return s }
+	reg := func(name string, owner func(e *c03Env) util.Uint160) func(e *c03Env) []any {
+		return func(e *c03Env) []any {
+			return []any{fmt.Sprintf(name, e.seq), owner(e), "m@nspcc.io", int64(1), int64(2), int64(1000), int64(3)}
+		}
+	}
+	hu0 := func(e *c03Env) util.Uint160 { return e.u0.ScriptHash() }
+	hu1 := func(e *c03Env) util.Uint160 { return e.u1.ScriptHash() }
+	hu2 := func(e *c03Env) util.Uint160 { return e.u2.ScriptHash() }
+	hst := func(e *c03Env) util.Uint160 { return e.strng.ScriptHash() }
+	return map[string][]c03Row{
+		"nns.register/7": {
+			{variant: "third level: the new owner and the owner or admin of the enclosing second-level name", req: reqCustom,
+				args: reg("l3-%d.c03.neofs", hu2),
+				custom: func(e *c03Env) []c03Class {
+					return []c03Class{
+						{"a stranger registering for itself", S(e.strng), false},
+						{"the new owner alone", S(e.u2), false},
+						{"the parent's owner without the new owner", S(e.u0), false},
+						{"the new owner and the committee majority", S(e.u2, e.c.Committee), false},
+						{"the new owner and the Alphabet", S(e.u2, e.c.Alphabet), false},
+						{"the new owner and the parent's owner", S(e.u2, e.u0), true},
+						{"the new owner and the parent's admin", S(e.u2, e.u1), true},
+					}
+				},
+				classArgs: map[string]func(e *c03Env) []any{"a stranger registering for itself": reg("l3-%d.c03.neofs", hst)}},
+			{variant: "fourth level below a third-level name of another owner: only the directly enclosing name's owner counts", req: reqCustom,
+				args: reg("l4-%d.sub.c03.neofs", hu2),
+				custom: func(e *c03Env) []c03Class {
+					return []c03Class{
+						{"a stranger registering for itself", S(e.strng), false},
+						{"the second-level owner registering for itself (owns the zone, not the enclosing name)", S(e.u0), false},
+						{"the second-level admin registering for itself", S(e.u1), false},
+						{"the second-level owner and admin together", S(e.u0, e.u1), false},
+						{"the committee majority and the Alphabet registering for the second-level owner", S(e.u0, e.c.Committee, e.c.Alphabet), false},
+						{"the owner of the enclosing third-level name, for itself", S(e.u2), true},
+						{"the owner of the enclosing third-level name and a new owner", S(e.u2, e.u1), true},
+					}
+				},
+				classArgs: map[string]func(e *c03Env) []any{
+					"a stranger registering for itself":                                                     reg("l4-%d.sub.c03.neofs", hst),
+					"the second-level owner registering for itself (owns the zone, not the enclosing name)": reg("l4-%d.sub.c03.neofs", hu0),
+					"the second-level admin registering for itself":                                         reg("l4-%d.sub.c03.neofs", hu1),
+					"the second-level owner and admin together":                                             reg("l4-%d.sub.c03.neofs", hu0),
+					"the committee majority and the Alphabet registering for the second-level owner":        reg("l4-%d.sub.c03.neofs", hu0),
+					"the owner of the enclosing third-level name and a new owner":                           reg("l4-%d.sub.c03.neofs", hu1),
+				}},
+		},
+	}
+}
+
 type c03Class struct {
 	name    string
 	signers []neotest.Signer
@@ -302,6 +362,8 @@ func (e *c03Env) classes(r c03Row) []c03Class {
 	}
 	S := func(s ...neotest.Signer) []neotest.Signer { return s }
 	switch r.req {
+	case reqCustom:
+		return r.custom(e)
 	case reqAlphabet:
 		cl := []c03Class{{"nobody relevant (a stranger)", S(e.strng), false}, {"a single Alphabet member", S(member), false}}
 		if !same {
@@ -511,109 +573,123 @@ func TestC03Matrix(t *testing.T) {
 					h.Mark("not-alphabet-gated")
 					return
 				}
-				e := newC03Env(n)
-				defer e.c.Close()
-				e.h["probe"] = e.c.Deploy(chainkit.Probe("subscriber", "verif subscriber 0"), nil)
-				if reelect {
-					// the whole committee is voted out after the world has been prepared (and every contract has seen calls
-					// by the old Alphabet): from now on the old accounts are nobody, the new ones are the Alphabet
-					e.c.Reelect("c03")
-					h.Op("committee re-elected")
-					h.Mark("committee-re-elected")
-				}
-				target := e.h[u.contract]
-				if row.target != "" {
-					target = e.h[row.target]
-				}
-				args := row.args(e)
-				if len(args) != len(u.m.Parameters) {
-					panic(chainkit.HarnessError{Msg: "c03: table row " + key + " has the wrong arity"})
-				}
-				for _, cl := range e.classes(row) {
-					e.seq++
-					args = row.args(e)
-					pre := e.c.Snapshot(e.watch...)
-					o := e.c.Invoke(cl.signers, target, u.m.Name, args...)
-					what := fmt.Sprintf("%s (n=%d) invoked by %s", key, n, cl.name)
-					h.Op("%s -> %s", what, o)
-					if !cl.allowed {
-						refused := !o.Halt
-						if row.falsey && o.Halt {
-							if b, isb := o.Bool(); isb && !b {
-								refused = true
+				for vi, row := range append([]c03Row{row}, c03Variants()[key]...) {
+					if vi > 0 && reelect {
+						break
+					}
+					func() {
+						if row.variant != "" {
+							h.Op("variant: %s", row.variant)
+							h.Mark("variant")
+						}
+						e := newC03Env(n)
+						defer e.c.Close()
+						e.h["probe"] = e.c.Deploy(chainkit.Probe("subscriber", "verif subscriber 0"), nil)
+						if reelect {
+							// the whole committee is voted out after the world has been prepared (and every contract has seen calls
+							// by the old Alphabet): from now on the old accounts are nobody, the new ones are the Alphabet
+							e.c.Reelect("c03")
+							h.Op("committee re-elected")
+							h.Mark("committee-re-elected")
+						}
+						target := e.h[u.contract]
+						if row.target != "" {
+							target = e.h[row.target]
+						}
+						args := row.args(e)
+						if len(args) != len(u.m.Parameters) {
+							panic(chainkit.HarnessError{Msg: "c03: table row " + key + " has the wrong arity"})
+						}
+						for _, cl := range e.classes(row) {
+							e.seq++
+							args = row.args(e)
+							if f := row.classArgs[cl.name]; f != nil {
+								args = f(e)
+							}
+							pre := e.c.Snapshot(e.watch...)
+							o := e.c.Invoke(cl.signers, target, u.m.Name, args...)
+							what := fmt.Sprintf("%s%s (n=%d) invoked by %s", key, shortArgs(args), n, cl.name)
+							h.Op("%s -> %s", what, o)
+							if !cl.allowed {
+								refused := !o.Halt
+								if row.falsey && o.Halt {
+									if b, isb := o.Bool(); isb && !b {
+										refused = true
+									}
+								}
+								if !refused {
+									fail("C03: %s succeeded without the required witnesses (%s): %s", what, row.req, o)
+								}
+								e.inert(what, pre, o)
+								h.Mark("refused")
+								h.NonTrivial()
+								continue
+							}
+							okk := o.Halt
+							if row.falsey {
+								b, isb := o.Bool()
+								okk = o.Halt && isb && b
+							}
+							if !okk {
+								fail("C03: %s carries exactly the required witnesses (%s) but did not succeed: %s", what, row.req, o)
+							}
+							h.Mark("succeeded")
+						}
+						// the required signers are on the transaction, but only to pay for it (witness scope None), and a
+						// stranger makes the call: their witnesses do not cover the contract - a deficient set like any other.
+						// (Run on a fresh world, because the allowed class above has already changed this one.)
+						if row.req != reqNone && row.req != reqCallback && (n == 1 || n == 4) && !reelect {
+							e2 := newC03Env(n)
+							defer e2.c.Close()
+							e2.h["probe"] = e2.c.Deploy(chainkit.Probe("subscriber", "verif subscriber 0"), nil)
+							target2 := e2.h[u.contract]
+							if row.target != "" {
+								target2 = e2.h[row.target]
+							}
+							var allowed c03Class
+							for _, cl := range e2.classes(row) {
+								if cl.allowed {
+									allowed = cl
+									break
+								}
+							}
+							for _, order := range []string{"payers first", "stranger first"} {
+								var ss []chainkit.ScopedSigner
+								for _, sg := range allowed.signers {
+									e2.c.FundGAS(sg.ScriptHash(), 500*gasUnit)
+									ss = append(ss, chainkit.ScopedSigner{S: sg, Scope: transaction.None})
+								}
+								e2.c.FundGAS(e2.strng.ScriptHash(), 500*gasUnit)
+								st := chainkit.ScopedSigner{S: e2.strng, Scope: transaction.Global}
+								if order == "payers first" {
+									ss = append(ss, st)
+								} else {
+									ss = append([]chainkit.ScopedSigner{st}, ss...)
+								}
+								e2.seq++
+								args2 := row.args(e2)
+								e2.watch = append(e2.watch, allowed.signers[0].ScriptHash())
+								tx := e2.c.PrepareScoped(chainkit.Script(target2, u.m.Name, args2...), ss)
+								pre := e2.c.Snapshot(e2.watchNoFee(ss)...)
+								o := e2.c.InvokeBlock(0, tx)[0]
+								what := fmt.Sprintf("%s (n=%d) invoked by a stranger while %s only pay(s) the fees with witness scope None (%s)", key, n, allowed.name, order)
+								h.Op("%s -> %s", what, o)
+								refused := !o.Halt
+								if row.falsey && o.Halt {
+									if b, isb := o.Bool(); isb && !b {
+										refused = true
+									}
+								}
+								if !refused {
+									fail("C03: %s succeeded: %s", what, o)
+								}
+								if d := chainkit.Diff(pre, e2.c.Snapshot(e2.watchNoFee(ss)...)); len(d) != 0 {
+									fail("C03: %s changed state: %v", what, d)
+								}
+								h.Mark("refused-scope-none")
 							}
 						}
-						if !refused {
-							fail("C03: %s succeeded without the required witnesses (%s): %s", what, row.req, o)
-						}
-						e.inert(what, pre, o)
-						h.Mark("refused")
-						h.NonTrivial()
-						continue
-					}
-					okk := o.Halt
-					if row.falsey {
-						b, isb := o.Bool()
-						okk = o.Halt && isb && b
-					}
-					if !okk {
-						fail("C03: %s carries exactly the required witnesses (%s) but did not succeed: %s", what, row.req, o)
-					}
-					h.Mark("succeeded")
-				}
-				// the required signers are on the transaction, but only to pay for it (witness scope None), and a
-				// stranger makes the call: their witnesses do not cover the contract - a deficient set like any other.
-				// (Run on a fresh world, because the allowed class above has already changed this one.)
-				if row.req != reqNone && row.req != reqCallback && (n == 1 || n == 4) && !reelect {
-					e2 := newC03Env(n)
-					defer e2.c.Close()
-					e2.h["probe"] = e2.c.Deploy(chainkit.Probe("subscriber", "verif subscriber 0"), nil)
-					target2 := e2.h[u.contract]
-					if row.target != "" {
-						target2 = e2.h[row.target]
-					}
-					var allowed c03Class
-					for _, cl := range e2.classes(row) {
-						if cl.allowed {
-							allowed = cl
-							break
-						}
-					}
-					for _, order := range []string{"payers first", "stranger first"} {
-						var ss []chainkit.ScopedSigner
-						for _, sg := range allowed.signers {
-							e2.c.FundGAS(sg.ScriptHash(), 500*gasUnit)
-							ss = append(ss, chainkit.ScopedSigner{S: sg, Scope: transaction.None})
-						}
-						e2.c.FundGAS(e2.strng.ScriptHash(), 500*gasUnit)
-						st := chainkit.ScopedSigner{S: e2.strng, Scope: transaction.Global}
-						if order == "payers first" {
-							ss = append(ss, st)
-						} else {
-							ss = append([]chainkit.ScopedSigner{st}, ss...)
-						}
-						e2.seq++
-						args2 := row.args(e2)
-						e2.watch = append(e2.watch, allowed.signers[0].ScriptHash())
-						tx := e2.c.PrepareScoped(chainkit.Script(target2, u.m.Name, args2...), ss)
-						pre := e2.c.Snapshot(e2.watchNoFee(ss)...)
-						o := e2.c.InvokeBlock(0, tx)[0]
-						what := fmt.Sprintf("%s (n=%d) invoked by a stranger while %s only pay(s) the fees with witness scope None (%s)", key, n, allowed.name, order)
-						h.Op("%s -> %s", what, o)
-						refused := !o.Halt
-						if row.falsey && o.Halt {
-							if b, isb := o.Bool(); isb && !b {
-								refused = true
-							}
-						}
-						if !refused {
-							fail("C03: %s succeeded: %s", what, o)
-						}
-						if d := chainkit.Diff(pre, e2.c.Snapshot(e2.watchNoFee(ss)...)); len(d) != 0 {
-							fail("C03: %s changed state: %v", what, d)
-						}
-						h.Mark("refused-scope-none")
-					}
+					}()
 				}
 			})
 			if !ok {
